@@ -30,24 +30,26 @@ EXTRACT = "ExC09"
 TECHNIQUE = (
     "Coq proof (get/set lemmas of path-indexed updates on rose trees, order-independence of consistent "
     "operation scripts, BFS/DFS permutation, fuelled recursion) about an executable model of "
-    "Client.upload/download/list/remove/make_directory over an abstract remote file system, tied to the "
-    "code by wire-level differential correspondence of the extracted model against the real client and "
-    "server on an in-memory network"
+    "Client.upload/download/list/remove/make_directory over an abstract remote file system; the model's one "
+    "source-dependent parameter (how upload computes a child's destination) and the surrounding path plumbing are "
+    "re-read from client.py by a fail-closed py2v translator on every run and re-checked as a closed obligation; "
+    "tied to the code by wire-level differential correspondence of the extracted model against the real client and "
+    "server on an in-memory network, with independent Python oracles evaluated on the implementation's results"
 )
 LEVEL_TEXT = (
     "Theorems of coq/Props/C09.v hold for every tree, destination, write_into, cwd and every remote/local state "
-    "satisfying the stated no-conflict hypotheses (Closed under the global context); C09_upload_dir_refuted shows "
-    "the faithful model of upload() as found violates the documented placement (finding F1), "
-    "C09_upload_dir_view / C09_upload_dir_child_misplaced describe that defect for every input (the tree is laid out "
-    "below cwd/<last component>, every child is missing from the documented place), "
-    "C09_upload_spec_fixed proves the full statement for the candidate fix, C09_upload_dir_spec_repo is the statement "
-    "about whichever of the two forms client.py has now (read from the source by py2v on every run, third forms fail "
-    "closed). The model is hand-written; its tie to "
-    "the code is a bounded-exhaustive wire-level correspondence (all tree shapes to depth 3 / fan-out 2 x "
+    "satisfying the stated no-conflict hypotheses (Closed under the global context): C09_upload_spec (directory upload "
+    "= graft at destination[/source.name], nothing else changed, for the code /repo has now), C09_upload_file_spec, "
+    "C09_make_directory_spec, C09_download_spec (exact), C09_list_recursive_exact (permutation of the subtree's entries), "
+    "C09_remove_spec (exact), C09_fuel_enough. C09_source_obligations ties the model's upload form and the path plumbing "
+    "to client.py (regenerated each run; the pre-fix form of upload computes false and any third form fails closed). "
+    "C09_hist_* are historical statements about the pre-fix upload (what a revert would do). The model is hand-written; "
+    "its tie to the code is a bounded-exhaustive wire-level correspondence (all tree shapes to depth 3 / fan-out 2 x "
     "destinations x write_into x cwd, MLSD and LIST-fallback servers, memory and disk backends on both sides)."
 )
 LEVEL_NOTE = (
-    "Trusted: Coq kernel; extraction cross-checked with vm_compute; harness + simnet. Modelled not verified: "
+    "Trusted: Coq kernel; extraction cross-checked with vm_compute; py2v (syntactic classification of upload/download's "
+    "path computations); harness + simnet. Modelled not verified: "
     "pathlib.PurePosixPath on well-formed parts (no '.', '..', '/' inside a name), the wire protocol below the "
     "abstract operations (MLST/MLSD/LIST parsing, PASV, block-wise transfer), backends (MemoryPathIO, PathIO)."
 )
@@ -63,11 +65,12 @@ ASSUMPTIONS = [
 
 # Model function 0 stands for Client.upload AS /repo HAS IT NOW: Extract/ExC09.v instantiates the model's
 # `fixed` parameter with Gen.ClientWalks.upload_relative_fixed, which tools/py2v/gen_client_walks.py reads from
-# client.py on every run (false = as found, finding F1; true = docs/fixes/C09-upload-destination.diff; any other
-# computation of `relative` fails closed).  1 = the fixed code, 9 = the code as found, 10 = the flag itself.
+# client.py on every run (true = `relative = destination / path.relative_to(source)`; false = the two-armed form before
+# "fix: Client.upload places a directory's children under the destination" (former finding F1) -- then
+# Props/C09.v stops compiling and the oracle below reports the misplaced uploads; any other computation fails closed).
+# 1 = Model.upload (the repaired code), 9 = the historical pre-fix code, 10 = the flag itself.
 UPLOAD_MODEL_FN = 0
 GEN_FILE = core.COQ / "Gen" / "ClientWalks.v"
-KNOWN_KEY = "c09-upload-dir-multi-component-destination"
 
 TMP_ROOT = core.VERIF / "build" / "tmp"
 
@@ -569,22 +572,6 @@ def model_tree(r):
     return ("fuel",)
 
 
-def defect_shape(case, src, cwdp):
-    """the inputs on which finding F1 predicts a misplacement: a non-empty directory whose final destination
-    does not resolve to cwd/<its last component>"""
-    if not isinstance(src, dict) or not src:
-        return False
-    dst2 = pathlib.PurePosixPath(case["dst"]) / ("" if case["wi"] else "foo")
-    return resolve(cwdp, str(dst2)) != cwdp + ([dst2.name] if dst2.name else [])
-
-
-def defect_prediction(case, src, remote, cwdp):
-    """what F1 says happens: the directory itself is created at the right place, its children go to cwd/<last component>"""
-    dst2 = pathlib.PurePosixPath(case["dst"]) / ("" if case["wi"] else "foo")
-    t = ensure_dir_oracle(remote, resolve(cwdp, str(dst2)))
-    return graft_oracle(t, cwdp + ([dst2.name] if dst2.name else []), src)
-
-
 def replay_payload(case, key, **kw):
     d = {k: (list(v) if isinstance(v, tuple) else v) for k, v in case.items()}
     d["key"] = key
@@ -673,10 +660,6 @@ def check_cases(ctx, cases, tmp, use_model=True):
             ctx.count("upload-conflict(no oracle)")
         elif obs["upload_exc"] is not None or canon(obs["t1"]) != canon(want):
             key = "c09-upload-mismatch"
-            if (obs["upload_exc"] is None and defect_shape(case, src, cwdp)
-                    and canon(obs["t1"]) == canon(defect_prediction(case, src, remote, cwdp))):
-                key = KNOWN_KEY
-                ctx.count("known-defect-shape")
             ctx.violation(
                 "upload did not place the tree at the documented destination",
                 replay_payload(case, key, source=show(src), expected=show(want),
@@ -745,6 +728,18 @@ def dots_cases():
     return out
 
 
+def witness_cases():
+    """the two inputs on which the pre-fix upload() misplaced the children (former finding F1; the witnesses of
+    C09_hist_old_upload_child_misplaced), now ordinary corpus cases under the oracle, on both kinds of server"""
+    out = []
+    for dst, wi in (("x", False), ("x/y", True)):
+        for cwd in CWDS:
+            for fb in (False, True):
+                out.append(dict(shape=("F",), scheme=0, dst=dst, wi=wi, cwd=cwd, bs=8192, fallback=fb, sdisk=False,
+                                cdisk=False, merge=False, src_abs=False, lcwd="/", ldst="", lwi=False, pick=0))
+    return out
+
+
 def correspondence(ctx):
     ctx.extra["rule"] = (
         "bounded-exhaustive: every tree shape of depth <= 3 and fan-out <= 2 over leaves {empty file, file, empty dir} "
@@ -759,8 +754,8 @@ def correspondence(ctx):
     gen_ok, fixed = gen_flag()
     ctx.extra["upload_form_in_source"] = (
         "unclassified (translator failed closed)" if not gen_ok
-        else "fixed: relative = destination / path.relative_to(source)" if fixed
-        else "as found (F1): destination.name / path.relative_to(source) | path.relative_to(source.parent)"
+        else "relative = destination / path.relative_to(source)" if fixed
+        else "PRE-FIX form: destination.name / path.relative_to(source) | path.relative_to(source.parent)"
     )
     use_model = gen_ok
     if not gen_ok:
@@ -770,14 +765,15 @@ def correspondence(ctx):
         if bool(got) != fixed:
             use_model = False
             ctx.obligation_broken("stale-model", f"extracted model has upload_relative_fixed={bool(got)}, the source says {fixed}")
-    if fixed and ctx.kf:
-        ctx.extra["note"] = ("client.py has the fixed form of upload; finding " + ctx.kf[0]["id"]
-                             + " should be moved to 'fixed' in known_findings.json")
+        if not fixed:
+            ctx.obligation_broken("Gen.ClientWalks.upload_relative_fixed",
+                                  "client.py computes a child's destination in upload() the pre-fix way "
+                                  "(children land in cwd/<last component>); C09_upload_spec does not hold of it")
     TMP_ROOT.mkdir(parents=True, exist_ok=True)
     tmp = TMP_ROOT / f"c09-{os.getpid()}"
     tmp.mkdir(exist_ok=True)
     try:
-        cases = make_cases(ctx) + dots_cases()
+        cases = witness_cases() + make_cases(ctx) + dots_cases()
         xcheck = check_cases(ctx, cases, tmp, use_model=use_model)
         ctx.extra["correspondence_ran"] = True
         ctx.count("sessions", len(cases))
@@ -787,29 +783,6 @@ def correspondence(ctx):
     ctx.extra["vm_compute_crosscheck"] = {"cases": len(xcheck[:60]), "agree": ok}
     if not ok:
         ctx.obligation_broken("extraction-crosscheck", out)
-
-
-def known(ctx):
-    """replay the two witnesses of C09_upload_dir_refuted on the real code"""
-    if not ctx.kf:
-        return
-    TMP_ROOT.mkdir(parents=True, exist_ok=True)
-    tmp = TMP_ROOT / f"c09k-{os.getpid()}"
-    tmp.mkdir(exist_ok=True)
-    try:
-        for dst, wi in (("x", False), ("x/y", True)):
-            case = dict(shape=("F",), scheme=0, dst=dst, wi=wi, cwd="/", bs=8192, fallback=False, sdisk=False, cdisk=False,
-                        merge=False, src_abs=False, lcwd="/", ldst="", lwi=False, pick=0)
-            src = build(case["shape"], 0)
-            obs = run_case(case, src, {}, tmp)
-            dst2 = pathlib.PurePosixPath(dst) / ("" if wi else "foo")
-            want = graft_oracle({}, resolve([], str(dst2)), src)
-            # F1 itself, not just any misplacement: the children are under cwd/<last component>
-            if (obs["upload_exc"] is None and canon(obs["t1"]) != canon(want)
-                    and canon(obs["t1"]) == canon(defect_prediction(case, src, {}, []))):
-                ctx.known_reproduced(ctx.kf[0]["id"], f"upload('foo', {dst!r}, write_into={wi}) -> {show(obs['t1'])}")
-    finally:
-        shutil.rmtree(tmp, ignore_errors=True)
 
 
 def search(ctx):
@@ -822,7 +795,7 @@ def search(ctx):
     tmp = TMP_ROOT / f"c09s-{os.getpid()}"
     tmp.mkdir(exist_ok=True)
     try:
-        cases = make_cases(ctx) + dots_cases()
+        cases = witness_cases() + make_cases(ctx) + dots_cases()
         check_cases(ctx, cases, tmp, use_model=False)
         ctx.count("sessions(oracle only)", len(cases))
     finally:
